@@ -111,6 +111,11 @@ impl MemoryPool {
                 return None;
             }
 
+            // Verification hook: widens the window between the load above
+            // and the CAS below (outside any critical section).
+            #[cfg(feature = "verif-hooks")]
+            crate::verif::delay("pool.try_allocate.load_cas");
+
             match self.used.compare_exchange_weak(
                 current,
                 new_usage,
